@@ -64,7 +64,7 @@ typedef boost::property_tree::ptree ptree;
 typedef amgcl::backend::numa_vector<Rhs> NV;
 static const double U = 1.1102230246251565e-16;
 
-struct Cfg { std::string coars, relax; double alpha = 1.5; unsigned npre = 1, npost = 1, ncycle = 1, pre_cycles = 1, coarse_enough = 10, max_levels = 0; bool direct = true; ptree p; J desc; };
+struct Cfg { std::string coars, relax; double alpha = VF_BS == 1 ? 1.5 : 2.0;   /* documented default of over_interp: 1.5 scalar, 2.0 block values */ unsigned npre = 1, npost = 1, ncycle = 1, pre_cycles = 1, coarse_enough = 10, max_levels = 0; bool direct = true; ptree p; J desc; };
 
 // draw a configuration; wide = randomise the component parameters too; sym = keep npre == npost and the smoother parameters inside the theory's domain
 static Cfg draw(Rng &r, const std::string &coars, const std::string &relax, bool wide, bool sym, int ncycle_forced = 0) {
@@ -243,14 +243,28 @@ static void sub_cycle() {
 //---------------------------------------------------------------------------
 // spd: monitor 4
 //---------------------------------------------------------------------------
-#if VF_BS == 1
 static void sub_spd() {
-    long nmat = vf::tier(3, 60), N = nmat * 56, stride = vf::opt_int("stride", 1);
+    // Block values: the energy-minimising coarsening is left out of this sub-check.  It computes R independently of P (R = R_t - Omega R_t A D^-1,
+    // P = P_t - D^-1 A P_t Omega with block-valued Omega_j); R = P^T then needs the blocks to commute, so with non-commuting blocks the cycle is not
+    // variational (observed on the unchanged tree: max|B - B^T| = 5e-4, lambda_max(BA) = 1.00002) -- neither C02 nor C03 claims R = P^T for it.
+    const int NCS = BS == 1 ? NCOARS : 2;      // COARS[0], COARS[1] = aggregation, smoothed_aggregation
+    long cells = NCS * 7 * 2, nmat = vf::tier(BS == 1 ? 3 : 3, BS == 1 ? 60 : 20), N = nmat * cells, stride = vf::opt_int("stride", 1);
     for (long idx = 0; idx < N; ++idx) {
         if (!vf::selected("spd", idx) || idx % stride) continue;
-        Rng r(vf::case_seed("spd", idx)); int ci = (int)(idx % 4), ri = (int)((idx / 4) % 7), ncyc = 1 + (int)((idx / 28) % 2); long rep = idx / 56;
-        std::string fam; J md; Csr<double> A = vf::random_spd_mmatrix(r, 50, rep % 5 == 4 ? 300 : 160, fam, &md); size_t n = A.n;
+        Rng r(vf::case_seed("spd", idx)); int ci = (int)(idx % NCS), ri = (int)((idx / NCS) % 7), ncyc = 1 + (int)((idx / (NCS * 7)) % 2); long rep = idx / cells;
+        // BS = 1: SPD irreducibly diagonally dominant M-matrix (the property's domain).  BS > 1: block vector Laplacian on such a graph
+        // with non-commuting SPD edge weights (hcycle.hpp); SPD-ness is validated below by the Cholesky factorisation (exit 3 otherwise).
+        std::string fam; J md; Csr<double> A = vf::random_spd_mmatrix(r, std::max(16, 50 / BS), (rep % 5 == 4 ? 300 : 160) / BS, fam, &md);
+        if (BS > 1) { double reaction = (rep % 2 == 0 || r.coin(0.4)) ? r.logu(1.5, 40.0) : 0.0;     // stiff reaction in one direction per node: anisotropic diagonal blocks
+            A = vf::block_laplacian(A, BS, r, reaction); fam += "-block-laplacian"; md.n("block", BS).n("n_scalar", A.n).n("reaction", reaction); }
+        size_t n = A.n;
         Cfg cfg = draw(r, COARS[ci], RELAX9[ri], rep >= 1, true, ncyc);
+        if (BS > 1 && cfg.relax == "chebyshev" && rep % 2 == 0) { cfg.p.put("relax.scale", true); cfg.desc.bl("relax.scale(forced)", true); }   // the diagonally scaled variant needs block values to be exercised at all
+        // smoothers whose A-norm contraction is guaranteed on this input class: all seven on M-matrices; for block SPD input damped block Jacobi
+        // (A <= 2 D, omega <= 1), SPAI-0 (M_i = A_ii / sum_j |A_ij|_F^2, same argument), symmetric block Gauss-Seidel and Chebyshev with the
+        // Gershgorin bound (a norm bound for blocks).  Incomplete block factorisations of an SPD non-M matrix are symmetric (U = D L^T) but need
+        // not define a convergent splitting: for ilu0 / iluk / ilup with block values only symmetry is asserted, the spectrum is recorded.
+        bool smoother_ok = BS == 1 || (cfg.relax != "ilu0" && cfg.relax != "iluk" && cfg.relax != "ilup");
         int unit = rep >= 1 ? (int)r.pick(std::vector<long>{0, 0, 0, 30, -30, -60, 70, -100}) : 0;     // the same problem in other physical units (still an SPD M-matrix)
         if (unit) { A = vf::scaled_pow2(A, unit); md.n("scaled_by_pow2", unit); }
         Case c("spd", idx, J().o("matrix", md).o("cfg", cfg.desc));
@@ -277,8 +291,9 @@ static void sub_spd() {
             // Gauss-Seidel, V-cycle, levels 225>32>5>1: lambda_max(BA) = 2.7.)  That is a property of the documented method, not of
             // the code, so outside the guaranteed region only symmetry and the theoretical bound are asserted.
             double alpha = cfg.coars == "aggregation" ? cfg.alpha : 1.0, lb = 1.0; bool guaranteed = true;
-            for (size_t l = nl; l-- > 1;) { double t = alpha * lb; if (!(t < 2)) guaranteed = false; lb = cfg.ncycle >= 2 ? (t < 2 ? 1.0 : (t - 1) * (t - 1)) : std::max(1.0, t); }   // lb = bound for one visit of level l-1
-            if (guaranteed) {
+            for (size_t l = nl; l-- > 1;) { double t = alpha * lb; if (!(t < 2)) guaranteed = false; lb = cfg.ncycle >= 2 ? 1.0 : std::max(1.0, t); }   // W: the visit is squared, sigma(BA) <= 1 (alpha <= 2 here)   // lb = bound for one visit of level l-1
+            if (!smoother_ok) { vf::obs_sum("spd_cases_block_ilu_symmetry_only"); vf::obs_max("max_lambda_BA_block_ilu", lmax); vf::obs_min("min_lambda_BA_block_ilu", lmin); }
+            else if (guaranteed) {
                 c.check(std::isfinite(bmin) && bmin > mg * bmax, "spd:not-positive:" + cfg.relax, "the symmetric part of B has a non-positive eigenvalue", J().n("lambda_min", bmin).n("lambda_max", bmax));
                 c.check(std::isfinite(lmin) && std::isfinite(lmax) && lmin > mg * std::max(1.0, lmax) && lmax < 2 - mg * 2, "spd:not-contracting:" + cfg.relax, "eigenvalues of B A leave (0, 2): rho(I - B A) >= 1", J().n("lambda_min", lmin).n("lambda_max", lmax).n("levels", nl));
                 c.check(std::isfinite(lmax) && lmax <= lb * (1 + 1e-8), "spd:above-theoretical-bound:" + cfg.relax, "largest eigenvalue of B A exceeds the bound of the variational theory (1 for Galerkin coarsenings, alpha^(L-1) for rescaled aggregation)", J().n("lambda_max", lmax).n("bound", lb));
@@ -295,7 +310,6 @@ static void sub_spd() {
     }
 }
 
-#endif
 //---------------------------------------------------------------------------
 // scaling: monitor 5
 //---------------------------------------------------------------------------
@@ -326,9 +340,7 @@ int main(int argc, char **argv) {
     vf::init(argc, argv);
     if (omp_get_max_threads() != 1 && !vf::opt_int("allow_threads", 0)) { fprintf(stderr, "c02 is a single-thread check (bitwise differentials)\n"); return 3; }
     if (vf::sub_enabled("cycle")) sub_cycle();
-#if VF_BS == 1
     if (vf::sub_enabled("spd")) sub_spd();
-#endif
     if (vf::sub_enabled("scaling")) sub_scaling();
     return vf::finish();
 }
